@@ -260,6 +260,11 @@ def _handlers(ctx, rep):
                             "" if ok else "a handler wider than the timeout exception changes "
                             "which raises escape; the exception-freedom argument no longer "
                             "describes this code", nontrivial=False)
+                    reraise = [x for b in h.body for x in ast.walk(b) if isinstance(x, ast.Raise)]
+                    rep.add("handler-premise", "{}::{}::timeout handler ends the stream".format(cm.rel, qual),
+                            cm.where(h), not reraise,
+                            "" if not reraise else "the timeout handler raises: an expired deadline "
+                            "escapes from the parse call", nontrivial=False)
     pm = ctx.mod("ctparse.partial_parse")
     f = pm.funcs.get("PartialParse.apply_rule")
     if f is None:
